@@ -33,7 +33,7 @@ def run(chk):
     broken = chk.obligations(REGISTRY["C18"])
     runner.build_harness()
     rng = random.Random("C18-%d" % chk.seed)
-    nbase = 60 if chk.tier == "quick" else 1200
+    nbase = chk.size(60, 1200)
     texts = []
     small = {"stmts_max": 2, "depth": 2, "ddepth": 2, "origins": 0.5}
     for i in range(nbase):
